@@ -65,7 +65,8 @@ func checkPass(ctx *base.EntryContext) (bool, *Rule, uint32) {
 				curCount = 0
 				logging.Error(errors.New("negative concurrency"), "Negative concurrency in isolation.checkPass()", "rule", rule)
 			}
-			if curCount+batchCount > threshold {
+			// compare in 64 bits: curCount+batchCount may wrap around in uint32 for a huge batch count
+			if uint64(curCount)+uint64(batchCount) > uint64(threshold) {
 				return false, rule, curCount
 			}
 		}
